@@ -79,14 +79,14 @@ func runsFor(prop, tier string) []run {
 		fewP := few
 		fewP.Punch = true
 		return []run{
-			{"3blk-nopunch", few, pick(4, 6), minutes(pickf(0.6, 7))},
-			{"3blk-punch", fewP, pick(4, 6), minutes(pickf(0.6, 7))},
-			{"3blk-from-3snap-chain-nopunch", chain, pick(3, 5), minutes(pickf(0.6, 6))},
-			{"3blk-from-4snap-chain-punch", chainP, pick(3, 5), minutes(pickf(0.6, 6))},
-			{"3blk-from-unreclaimed-duplicates", dups, pick(3, 5), minutes(pickf(0.4, 3))},
-			{"3blk-from-unreclaimed-duplicates-2", dups2, pick(3, 4), minutes(pickf(0.4, 3))},
-			{"1blk", small, pick(5, 7), minutes(pickf(0.25, 2))},
-			{"2blk-punch", two, pick(4, 6), minutes(pickf(0.35, 4))},
+			{"3blk-nopunch", few, pick(4, 6), minutes(pickf(0.45, 7))},
+			{"3blk-punch", fewP, pick(4, 6), minutes(pickf(0.45, 7))},
+			{"3blk-from-3snap-chain-nopunch", chain, pick(3, 5), minutes(pickf(0.45, 6))},
+			{"3blk-from-4snap-chain-punch", chainP, pick(3, 5), minutes(pickf(0.45, 6))},
+			{"3blk-from-unreclaimed-duplicates", dups, pick(3, 5), minutes(pickf(0.35, 3))},
+			{"3blk-from-unreclaimed-duplicates-2", dups2, pick(3, 4), minutes(pickf(0.3, 3))},
+			{"1blk", small, pick(4, 7), minutes(pickf(0.2, 2))},
+			{"2blk-punch", two, pick(4, 6), minutes(pickf(0.3, 4))},
 		}
 	case "C06":
 		alpha := []string{"W", "SnapU", "SnapA", "Rm", "Mark", "ReopenP", "ReloadULM", "Revert"}
